@@ -20,7 +20,7 @@ def main():
 
     _c.use_repo()
     c09.split_lemmas(run)
-    hs = [h for h in c09.harnesses(tier()) if any(x in h.name for x in ("/mem4/", "/mem4_nobase/", "/mem3/", "/mem1/", "/mem0/", "/mem3_suffix/", "/mem0_suffix/"))]
+    hs = [h for h in c09.harnesses(tier()) if any(x in h.name for x in ("/mem4/", "/mem4_nobase/", "/mem3/", "/mem1/", "/mem0/", "/mem3_suffix/", "/mem0_suffix/", "/pair4/", "/pair3/"))]
     for h in hs:
         h.key = "parser_" + h.key
     ch.run_harnesses(run, hs)
